@@ -17,14 +17,10 @@ func init() {
 		d := o.Fn("(*am/dispatch.Dispatcher).run")
 		// consumers of the subscription
 		var worker *ssa.Function
-		var goInstr *ssa.Go
-		for _, in := range AllInstrs(d) {
-			g, ok := in.(*ssa.Go)
-			if !ok {
-				continue
-			}
-			// the goroutine's function: a literal or a method
-			f := g.Call.StaticCallee()
+		var goInstr ssa.Instruction
+		for _, gs := range e.GoSites(d) {
+			// the goroutine's function: a literal or a method, started with go or WaitGroup.Go
+			f := gs.Fn
 			if f == nil || len(f.Blocks) == 0 {
 				continue
 			}
@@ -35,7 +31,7 @@ func init() {
 				}
 			}
 			if routes {
-				worker, goInstr = f, g
+				worker, goInstr = f, gs.Instr
 			}
 		}
 		o.Require(worker != nil, "consumer", "no goroutine consumes the alert subscription", nil)
